@@ -329,7 +329,15 @@ func runHistory(f []string) string {
 						offer = "x"
 					}
 				}
-				tok = "E,,,," + offer
+				// control: the same two configurations without any session (fresh client, no cache).  A handshake that
+				// fails although a ticket was offered is acceptable only if this one fails too, or in the cases
+				// C16_resume_attempt_outcomes names (the check module decides)
+				ctl := "-"
+				if offer != "-" {
+					rc := connect(servers[i], newClient(a[2], a[3], a[4], a[5], nil, kl), kl, payload, connDeadline)
+					ctl = classify(&rc)
+				}
+				tok = "E,,,," + offer + "," + ctl + "," + sanitize(r.c.err) + "|" + sanitize(r.s.err)
 			}
 			conns = append(conns, hc)
 			toks = append(toks, tok)
@@ -865,6 +873,15 @@ func gen(seed uint64, tier string) []string {
 			[3]string{"2", srv, fmt.Sprintf("a/0/1;%s;r/0/3+1;%s;a/0/4;%s;%s", c, c, c, c)},
 			[3]string{"2", srv, fmt.Sprintf("a/0/3;%s;r/0/3+1;%s;a/0/0;%s;a/0/3;%s", c, c, c, c)})
 	}
+	// resumption at TLS 1.0 / 1.1 / 1.2 with the suites of each version, plain-TLS and auto-switch servers, with a
+	// rotation that keeps the old key in the middle
+	for _, srv := range []string{"tls", "auto"} {
+		for _, ks := range [][2]string{{"t10", "002f"}, {"t10", "0035"}, {"t10", "c014"}, {"t10", "000a"}, {"t11", "002f"}, {"t11", "0035"},
+			{"t11", "c012"}, {"t11", "c014"}, {"t12", "009c"}, {"t12", "009d"}, {"t12", "c030"}, {"t12", "003c"}, {"t12", "cca8"}, {"t12", "0005"}} {
+			c := fmt.Sprintf("c/0/%s/%s/n/0/1", ks[0], ks[1])
+			fixed = append(fixed, [3]string{"2", srv, fmt.Sprintf("%s;%s;r/0/3+1;%s;%s", c, c, c, c)})
+		}
+	}
 	for _, h := range fixed {
 		add("H %d %s %s %s", h[0], h[1], h[2])
 	}
@@ -881,13 +898,22 @@ func gen(seed uint64, tier string) []string {
 	}
 	type xc struct{ s, c, suites string; auth int; cert string }
 	others := []xc{{"tls", "t12", "c02f", 0, "n"}, {"tls", "t10", "002f", 0, "n"}, {"auto", "g", "e053", 0, "n"}, {"auto", "t12", "009c", 0, "n"},
-		{"gm", "g", "e013", 4, "t"}, {"tls", "t12", "c030", 1, "u"}}
+		{"auto", "t11", "0035", 0, "n"}, {"gm", "g", "e013", 4, "t"}, {"tls", "t12", "c030", 1, "u"}}
 	per := 12
 	if thorough {
 		per = 400
 	}
-	for _, o := range others {
+	for oi, o := range others {
 		add("X %d %s %s %s %d %s -", o.s, o.c, o.suites, o.auth, o.cert)
+		if oi < 5 {
+			// every 5th byte position (from a seed-dependent offset) and every 7th truncation length of the ticket
+			for p := int(seed % 5); p < 170; p += 5 {
+				add("X %d %s %s %s %d %s f%d:%d", o.s, o.c, o.suites, o.auth, o.cert, p, r.Intn(255))
+			}
+			for p := int(seed % 7); p < 170; p += 7 {
+				add("X %d %s %s %s %d %s t%d", o.s, o.c, o.suites, o.auth, o.cert, p)
+			}
+		}
 		for i := 0; i < per; i++ {
 			if r.Intn(2) == 0 {
 				add("X %d %s %s %s %d %s f%d:%d", o.s, o.c, o.suites, o.auth, o.cert, r.Intn(3000), r.Intn(255))
